@@ -686,6 +686,8 @@ def iteration_context(cs):
                     continue
                 if x == sw_:
                     continue  # the None edge of this iterator
+                if not any(body.term(y)["k"] == "return" for y in body.reachable(s_)):
+                    continue  # a way out that never returns (the failing branch of an assertion) is not a `break`
                 return None, "the loop can be left before the iterator is exhausted (break/return inside the loop)"
             if body.term(x)["k"] == "return":
                 return None, "the loop can be left before the iterator is exhausted (break/return inside the loop)"
